@@ -50,6 +50,7 @@ type M struct {
 	outDir     string
 	replay     map[string]interface{}
 	liFiles    map[int]*os.File
+	inconcl    []string
 }
 
 func New(property, part string) *M {
@@ -135,6 +136,15 @@ func (m *M) WantSample() bool {
 	m.mu.Lock()
 	defer m.mu.Unlock()
 	return len(m.samples) < m.maxSamples
+}
+
+// Inconclusive marks the part as not having reached a verdict (watchdog fired, hook never reached ...).
+func (m *M) Inconclusive(reason string) {
+	m.mu.Lock()
+	if len(m.inconcl) < 20 {
+		m.inconcl = append(m.inconcl, reason)
+	}
+	m.mu.Unlock()
 }
 
 func (m *M) Assume(s string)  { m.mu.Lock(); m.assume = append(m.assume, s); m.mu.Unlock() }
@@ -357,6 +367,7 @@ func (m *M) Finish(t testing.TB) {
 			r.Unmet = append(r.Unmet, fmt.Sprintf("%s=%d<%d", k, got, min))
 		}
 	}
+	r.Unmet = append(r.Unmet, m.inconcl...)
 	b, _ := json.MarshalIndent(r, "", " ")
 	name := filepath.Join(m.outDir, fmt.Sprintf("result.%s.%s.json", m.Property, m.Part))
 	if err := os.WriteFile(name, b, 0o644); err != nil {
